@@ -179,6 +179,11 @@ def canonical_function(fn_node: ast.FunctionDef, unnest: bool = True) -> ast.Fun
     def neg(t: ast.AST) -> ast.AST:
         if isinstance(t, ast.UnaryOp) and isinstance(t.op, ast.Not):
             return t.operand
+        if isinstance(t, ast.Compare) and len(t.ops) == 1:
+            flip = {ast.In: ast.NotIn, ast.NotIn: ast.In, ast.Is: ast.IsNot, ast.IsNot: ast.Is, ast.Eq: ast.NotEq, ast.NotEq: ast.Eq}
+            for a_, b_ in flip.items():
+                if isinstance(t.ops[0], a_):
+                    return ast.Compare(left=t.left, ops=[b_()], comparators=t.comparators)
         return ast.UnaryOp(op=ast.Not(), operand=t)
 
     def fix_body(body: List[ast.stmt]) -> List[ast.stmt]:
